@@ -117,11 +117,7 @@ func ParseFloat(b []byte) (float64, int) {
 const log2 = 0.3010299956639812
 
 func float64exp(f float64) int {
-	exp2 := 0
-	if f != 0.0 {
-		x := math.Float64bits(f)
-		exp2 = int(x>>(64-11-1))&0x7FF - 1023 + 1
-	}
+	_, exp2 := math.Frexp(f) // unlike the exponent bits, correct for subnormal numbers too
 
 	exp10 := float64(exp2) * log2
 	if exp10 < 0 {
@@ -145,7 +141,13 @@ func AppendFloat(b []byte, f float64, prec int) []byte {
 		prec = 17 // maximum number of significant digits in double
 	}
 	prec -= float64exp(f) // number of digits in front of the dot
-	f *= math.Pow10(prec)
+	if 308 < prec {
+		// math.Pow10 is infinite above 308, scale tiny numbers in two steps
+		f *= 1e308
+		f *= math.Pow10(prec - 308)
+	} else {
+		f *= math.Pow10(prec)
+	}
 
 	// calculate mantissa and exponent
 	mant := int64(f)
